@@ -62,7 +62,7 @@ TInit ==
   /\ pc = [d \in Downloads |-> "choose"]
   /\ chosen = [d \in Downloads |-> <<>>]
   /\ fresh = [d \in Downloads |-> TRUE]
-  /\ lock = 0
+  /\ lock = [k \in LockKeys |-> 0]
   /\ made = [d \in Downloads |-> FALSE]
   /\ nint = 0
   /\ marks = {}
